@@ -1322,7 +1322,11 @@ impl Database {
             if let Some((ref target_key, ref target_val)) = pk_lookup_info {
                 let cursor = btree.cursor_seek(target_key)?;
 
-                if cursor.valid() && cursor.key()? == target_key.as_slice() {
+                if cursor.valid()
+                    && cursor.key()? == target_key.as_slice()
+                    && !(cursor.value()?.len() >= crate::mvcc::RecordHeader::SIZE
+                        && crate::mvcc::RecordHeader::from_bytes(cursor.value()?).is_deleted())
+                {
                     let key = cursor.key()?;
                     let value = cursor.value()?;
                     let user_data = get_user_data(value);
@@ -1471,6 +1475,15 @@ impl Database {
                 }
 
                 let value = cursor.value()?;
+
+                // A tombstone is not a row: it can be neither matched nor updated.
+                if value.len() >= crate::mvcc::RecordHeader::SIZE
+                    && crate::mvcc::RecordHeader::from_bytes(value).is_deleted()
+                {
+                    cursor.advance()?;
+                    continue;
+                }
+
                 let user_data = get_user_data(value);
                 let values = decoder.decode(key, user_data)?;
                 let mut row_values: Vec<OwnedValue> =
